@@ -36,8 +36,10 @@ DotDescs == Flatten2([i \in DOMAIN BPairs |-> [t \in 1..3 |-> <<"ar", "dot", BPa
 MMDescs == Flatten2([i \in DOMAIN BPairs |-> [t \in 1..3 |->
               <<"ar", "matmul", BPairs[i][1] \o <<2, 3>>, BPairs[i][2] \o <<3, 2>>, Subsets2[t]>>]])
 
-BigBc == << <<"bc", <<1, 17>>, <<2, 17>>>>, <<"bc", <<9, 1>>, <<9, 2>>>>, <<"bc", <<1>>, <<19>>>>,  <<"bc", <<4, 1>>, <<4, 5>>>>, <<"bc", <<1, 5>>, <<4, 5>>>>, <<"bc", <<5>>, <<2, 5>>>>, <<"bc", <<4, 1>>, <<2, 4, 5>>>>, <<"bc", <<1, 1>>, <<6, 4>>>> >>
-All == BigBc \o BcastDescs \o (IF Thorough THEN ArithAll ELSE ArithDescs) \o DotDescs \o MMDescs
+BigBc == << <<"bc", <<1, 11>>, <<11, 11>>>>, <<"bc", <<11, 1>>, <<11, 11>>>>, <<"bc", <<1, 12>>, <<11, 12>>>>, <<"bc", <<11, 2>>, <<11, 11, 2>>>>, <<"bc", <<10>>, <<1, 10>>>>,  <<"bc", <<1, 17>>, <<2, 17>>>>, <<"bc", <<9, 1>>, <<9, 2>>>>, <<"bc", <<1>>, <<19>>>>,  <<"bc", <<4, 1>>, <<4, 5>>>>, <<"bc", <<1, 5>>, <<4, 5>>>>, <<"bc", <<5>>, <<2, 5>>>>, <<"bc", <<4, 1>>, <<2, 4, 5>>>>, <<"bc", <<1, 1>>, <<6, 4>>>> >>
+BigAr == << <<"ar", "add", <<1, 11>>, <<11, 11>>, <<TRUE, TRUE>>>>, <<"ar", "mul", <<11, 1>>, <<11, 11>>, <<TRUE, FALSE>>>>, <<"ar", "sub", <<11, 11>>, <<11, 1>>, <<TRUE, TRUE>>>>,
+           <<"ar", "div", <<12, 1>>, <<1, 11>>, <<TRUE, TRUE>>>> >>
+All == BigAr \o BigBc \o BcastDescs \o (IF Thorough THEN ArithAll ELSE ArithDescs) \o DotDescs \o MMDescs
 Descs == MyCases(All)
 
 WithG(name, ins, doms, op, par, ydims) ==
